@@ -17,8 +17,8 @@ from engine import tlc
 
 LEVEL = "exploration"
 MANIFEST = dict(
-    text="ConstructGrammar.tla enumerates every derivation with <=2 (quick and thorough; thorough adds a random sample with 3) non-default "
-         "productions of a grammar of Core constructs: SELECT (20 column forms x 14 FROM forms x 20 criteria x 22 modifiers x 13 wrappers), "
+    text="ConstructGrammar.tla enumerates every derivation with <=2 non-default productions (thorough adds all 3-combinations of a few "
+         "random productions per dimension) of a grammar of Core constructs: SELECT (20 column forms x 14 FROM forms x 20 criteria x 22 modifiers x 13 wrappers), "
          "INSERT (9 sources x 5 RETURNING x 11 upserts x 7 decorations), UPDATE, DELETE, DDL (9 FK graphs x 17 table features x 12 operations "
          "x 6 naming variants). Every derivation is built and compiled on the six dialects in 16 dialect variants x 5 compile variants; any "
          "exception outside the documented classes is reported. The specification contributes the completeness of the bounded construct "
@@ -149,5 +149,5 @@ def main(chk):
                   "variants (quick)",
              checker_cmd="tlc ConstructGrammar.tla (Depth 2; thorough: + Depth 3 RandomSubset)"),
         assumptions=["exploration level: the specification enumerates, it does not predict the compiled text",
-                     "bounded: <= 2 non-default productions per derivation exhaustively (all pairs of productions), 3 sampled in the thorough tier",
+                     "bounded: <= 2 non-default productions per derivation exhaustively (all pairs of productions); thorough adds the 3-combinations of 5 / 4 random productions per dimension",
                      "compile only; Core constructs only; dialect objects are configured without a server (server_version_info set by hand)"])
